@@ -24,7 +24,7 @@ from .util import sha, short, mix64, digest, float_bits, fmt_num
 PROP = "C12"
 LEVEL = "exploration"
 QUICK_JOBS = 480
-THOROUGH_JOBS = 40000
+THOROUGH_JOBS = 8000
 WALL_CAP = {"quick": 240.0, "thorough": 3300.0}
 
 RULE = ("one case = (pool of 1-3 related generated models, 1-3 tasks of up to 25 operations each: build, write, evaluate "
@@ -46,7 +46,7 @@ COMPONENTS = {
                   "file objects (SimFile)", "evaluation failures (EvalPoint)", "process / PYTHONHASHSEED (fresh interpreters)"],
     "stubbed": [],
 }
-EXPECTED_PROBES = ["switch-inside-write", "two-tasks-same-handle", "write-after-faulted-write", "excel-write-across-clock-jump",
+EXPECTED_PROBES = ["eval-exactly-at-range-boundary", "switch-inside-write", "two-tasks-same-handle", "write-after-faulted-write", "excel-write-across-clock-jump",
                    "backwards-clock-jump", "hashseed-comparison", "underspecified-eam-under-hashseeds", "shared-subform-different-args",
                    "same-form-name-different-formula-in-pool", "rebuild-same-model", "write-twice-same-handle", "eval-between-rows-of-own-write"]
 
@@ -212,8 +212,13 @@ def gen_scenario(seed, tier="quick"):
                 ops.append({"op": "write", "h": rng.choice(mine)})
             elif r < 0.80 and readable:
                 h = rng.choice(readable)
-                ops.append({"op": "eval", "h": h, "fi": rng.randrange(64), "what": rng.choice(["energy", "energy", "force"]),
-                            "ri": rng.randrange(64), "off": rng.choice([0.0, 0.0, 0.5, 0.013, -0.25])})
+                op = {"op": "eval", "h": h, "fi": rng.randrange(64), "what": rng.choice(["energy", "energy", "force"]),
+                      "ri": rng.randrange(64), "off": rng.choice([0.0, 0.0, 0.5, 0.013, -0.25])}
+                if rng.random() < 0.3:
+                    # exactly at / just either side of a range boundary written in the model
+                    op["bi"] = rng.randrange(64)
+                    op["eps"] = rng.choice([0.0, 0.0, 1e-9, -1e-9])
+                ops.append(op)
             elif r < 0.87 and mine:
                 ops.append({"op": "write_faulted", "h": rng.choice(mine), "kf": round(rng.random(), 4), "kind": rng.choice(FAULT_KINDS)})
             elif r < 0.90 and mine:
@@ -270,6 +275,20 @@ def _functions(tab):
     return out
 
 
+_BOUNDARY = re.compile(r">=?\s*(\d+(?:\.\d+)?)")
+
+
+def range_boundaries(spec):
+    """Every range-start value written in the model's function definitions (sorted, unique)."""
+    out = set()
+    for s in spec["sections"]:
+        if s["name"] in mg.FUNCTION_SECTIONS:
+            for k, d in s["entries"]:
+                for m in _BOUNDARY.finditer(d):
+                    out.add(float(m.group(1)))
+    return sorted(out)
+
+
 def _eval(tab, spec, op):
     fs = _functions(tab)
     if not fs:
@@ -282,6 +301,10 @@ def _eval(tab, spec, op):
         n, cut = meta["nr"], meta["cutoff"]
     i = op["ri"] % n
     x = (i + op["off"]) * cut / float(n - 1)
+    if "bi" in op:
+        bs = range_boundaries(spec)
+        if bs:
+            x = bs[op["bi"] % len(bs)] + op.get("eps", 0.0)
     if x < 0:
         x = 0.0
     try:
@@ -483,6 +506,10 @@ def _hashseed_child_main():
 # oracle
 # ----------------------------------------------------------------------------------------------
 
+def eval_key(op):
+    return "%d/%s/%d/%s/%s/%s" % (op["fi"], op["what"], op["ri"], op["off"], op.get("bi"), op.get("eps"))
+
+
 def collect_evals(sc):
     """Per model: [(key, op)] of every eval op in the scenario (key identifies (fi, what, ri, off))."""
     per = {i: {} for i in range(len(sc["models"]))}
@@ -495,8 +522,7 @@ def collect_evals(sc):
     for ops in sc["tasks"]:
         for op in ops:
             if op["op"] == "eval" and op["h"] in hmodel:
-                key = "%d/%s/%d/%s" % (op["fi"], op["what"], op["ri"], op["off"])
-                per[hmodel[op["h"]]][key] = op
+                per[hmodel[op["h"]]][eval_key(op)] = op
     return per, hmodel
 
 
@@ -522,7 +548,7 @@ def judge(sc, refs, res):
                           "detail": "%s raised %s(%s) although the same model builds in a pristine process" % (kind, r.get("exc"), r.get("msg"))})
                 continue
             if kind == "eval":
-                key = "%d/%s/%d/%s" % (op["fi"], op["what"], op["ri"], op["off"])
+                key = eval_key(op)
                 e = ref["evals"].get(key)
                 if e is None:
                     return [{"class": "HARNESS", "detail": "no reference for eval %s" % key}]
@@ -767,6 +793,10 @@ def _probes(sc, refs, res, extra, bump):
                 if any(e[1].count(n + "(") >= 2 for n in names):
                     bump("probe:shared-subform-different-args")
                     break
+    for ti, ops in enumerate(sc["tasks"]):
+        for op in ops:
+            if op["op"] == "eval" and "bi" in op and op.get("eps") == 0.0 and op["h"] in hmodel and range_boundaries(sc["models"][hmodel[op["h"]]]):
+                bump("probe:eval-exactly-at-range-boundary")
     if "same-names-other-formulas" in sc.get("model_tags", []):
         bump("probe:same-form-name-different-formula-in-pool")
     if len(sc["tasks"]) == 1 and False:
